@@ -297,10 +297,29 @@ Definition parse_history (tr : list tok) : list ev := flat_map parse_event (spli
 
 Definition is_race (main : list tok) : bool := match main with t :: _ => is_tag "ORACE" t | [] => false end.
 
+(* PURITY <size> <threads> <rounds> <iters>: the independence probe harness/c17_purity.cc (real threads under ThreadSanitizer,
+   every thread collecting its own MeterProvider; one provider collected while a registry of it is mutated).  The model treats
+   distinct providers and registries as independent values, so the only observation it predicts is PURE; the probe's other
+   observations name the failed clause.  A run-time probe of that assumption, not a theorem. *)
+Definition is_purity (main : list tok) : bool :=
+  match main with [t; TZ _; TZ _; TZ _; TZ _] => is_tag "PURITY" t | _ => false end.
+Definition spec_purity_ok (obs : list tok) : list tok :=
+  match obs with
+  | [t] => if is_tag "PURE" t then [] else fail "observation:unparsable"
+  | t :: _ => if is_tag "RACE" t then fail "purity:data_race"
+              else if is_tag "DIFFERS" t then fail "purity:result_differs"
+              else if is_tag "HARNESSRACE" t then fail "harness:probe_race"
+              else if is_tag "HANG" t then fail "purity:hang"
+              else if is_tag "CRASH" t then fail "purity:crash"
+              else fail "observation:unparsable"
+  | [] => fail "observation:unparsable"
+  end.
+
 (* ORACE: the lock-granularity acceptor of Lts.v replays the implementation's history event by event *)
 Definition run_model (l : list tok) : list tok :=
   let '(main, tr) := cut_bars l in
-  if is_race main then
+  if is_purity main then [tag "PURE"]
+  else if is_race main then
     match parse_race main with
     | Some _ => match first_rejected linit (parse_history tr) with None => [tag "OK"] | Some n => [tag "REJECT"; tnat n] end
     | None => bad_case
@@ -309,7 +328,8 @@ Definition run_model (l : list tok) : list tok :=
 
 Definition run_spec (l obs : list tok) : list tok :=
   let '(main, tr) := cut_bars l in
-  if is_race main then
+  if is_purity main then spec_purity_ok obs
+  else if is_race main then
     match parse_race main with
     | Some (init, threads) =>
         spec_race init threads (match obs with [t] => is_tag "OK" t | _ => false end) (parse_history tr)
@@ -320,7 +340,8 @@ Definition run_spec (l obs : list tok) : list tok :=
 
 Definition run_tag (l : list tok) : list tok :=
   let '(main, _) := cut_bars l in
-  if is_race main then
+  if is_purity main then [tag "purity_probe"]
+  else if is_race main then
     match parse_race main with
     | Some (init, threads) =>
         let ops := concat threads in
